@@ -81,7 +81,8 @@ impl Iterator for CharIdx { type Item = (usize, char); fn next(&mut self) -> Opt
 impl LineStr {
     pub fn char_indices(&self) -> CharIdx { CharIdx { i: 0, n: self.n } }
     pub fn len(&self) -> usize { self.n }
-    pub fn get(&self, r: std::ops::Range<usize>) -> Option<&str> { if r.start <= r.end && r.end <= self.n { Some("") } else { None } }
+    /// a slice of the right *length* (the word parser oracle bounds its piece offsets by it)
+    pub fn get(&self, r: std::ops::Range<usize>) -> Option<&str> { if r.start <= r.end && r.end <= self.n { Some(&"aaaaaaaa"[..r.end - r.start]) } else { None } }
 }
 #[derive(Debug)]
 pub struct LineTok { pub len: usize }
@@ -114,10 +115,13 @@ impl HOracle {
         let mk = |(op, s, e): (bool, usize, usize)| { let l = Loc { start: Pos { index: s }, end: Pos { index: e } }; if op { Token::Operator(W, l) } else { Token::Word(W, l) } };
         Ok(TokenList { n: self.ntok, a: mk(self.t[0]), b: mk(self.t[1]), i: 0 })
     }
-    fn parse_word(&mut self, _raw: &str) -> Result<PieceList, ()> {
+    fn parse_word(&mut self, raw: &str) -> Result<PieceList, ()> {
         let w = self.words_parsed; kani::assume(w < 2); self.words_parsed += 1;
         if self.parse_err[w] { return Err(()); }
-        Ok(PieceList { n: self.np[w], a: piece_of(self.p[w][0].0, self.p[w][0].1, self.p[w][0].2), b: piece_of(self.p[w][1].0, self.p[w][1].1, self.p[w][1].2), i: 0 })
+        // the word parser's offset contract: pieces in order, non-overlapping, inside the text it was given
+        let (a, b, c, d): (usize, usize, usize, usize) = (kani::any(), kani::any(), kani::any(), kani::any());
+        kani::assume(a <= b && b <= c && c <= d && d <= raw.len());
+        Ok(PieceList { n: self.np[w], a: piece_of(self.p[w][0].0, a, b), b: piece_of(self.p[w][1].0, c, d), i: 0 })
     }
     fn kind(&mut self, _r: &std::ops::Range<usize>, saw: &mut bool) -> HighlightKind { *saw = true; self.kinds += 1; any_kind() }
     /// induction hypothesis for a nested piece of a quoted sequence
@@ -152,7 +156,7 @@ fn t_program(this: &mut Hl, line: &LineStr, global_offset: usize, __o: &mut HOra
 fn fresh(len: usize) -> Hl { Hl { input_line: LineTok { len }, cursor: 0, spans: SpanRec { end: 0, count: 0, tiled: true }, current_byte_index: 0, next_missing_kind: None } }
 fn blank_oracle() -> HOracle { HOracle { tok_err: false, ntok: 0, t: [(false, 0, 0); 2], parse_err: [false; 2], np: [0; 2], p: [[(0, 0, 0); 2]; 2], words_parsed: 0, kinds: 0, nested_ok: true } }
 
-//@proof {'props': ['C19'], 'tier': 'quick', 'timeout': 900, 'uses': ['append_span', 'skip_ahead', 'set_missing', 'word_piece'], 'bounds': 'one word piece of symbolic kind (11 kinds) at a symbolic range [s, e) inside a 16-byte line, processed from an arbitrary tiled state whose cursor has not passed s; quoted sequences with 0..2 nested pieces at symbolic in-order offsets', 'desc': 'one inductive step of the tiling invariant: after highlight_word_piece the spans still tile [0, cursor) with non-empty contiguous spans and the cursor is exactly at the end of the piece'}
+//@proof {'props': ['C19'], 'tier': 'quick', 'setup': True, 'timeout': 900, 'uses': ['append_span', 'skip_ahead', 'set_missing', 'word_piece'], 'bounds': 'one word piece of symbolic kind (11 kinds) at a symbolic range [s, e) inside a 16-byte line, processed from an arbitrary tiled state whose cursor has not passed s; quoted sequences with 0..2 nested pieces at symbolic in-order offsets', 'desc': 'one inductive step of the tiling invariant: after highlight_word_piece the spans still tile [0, cursor) with non-empty contiguous spans and the cursor is exactly at the end of the piece'}
 #[kani::proof]
 #[kani::unwind(4)]
 fn vk_c19_word_piece_step() {
@@ -196,14 +200,10 @@ fn program_harness(max_tok: usize, max_pieces: usize) {
     o.parse_err = [kani::any(), kani::any()];
     let mut w = 0;
     while w < max_tok {
-        let (ts, te) = if w == 0 { (s0, e0) } else { (s1, e1) };
-        let wl = te - ts;
         o.np[w] = kani::any(); kani::assume(o.np[w] <= max_pieces);
-        let (a, b, c, d): (usize, usize, usize, usize) = (kani::any(), kani::any(), kani::any(), kani::any());
-        kani::assume(a <= b && b <= c && c <= d && d <= wl);
         // pieces are plain text here (concrete kind): what each of the 11 kinds does to the cursor is decided by vk_c19_word_piece_step,
-        // whose post-condition (cursor at the end of the piece, tiling intact) is all this loop relies on
-        o.p[w] = [(0, a, b), (0, c, d)];
+        // whose post-condition (cursor at the end of the piece, tiling intact) is all this loop relies on; offsets are chosen by the oracle
+        o.p[w] = [(0, 0, 0), (0, 0, 0)];
         w += 1;
     }
     t_program(&mut hl, &line, 0, &mut o);
